@@ -104,7 +104,7 @@ Proof.
     apply bool_decide_eq_true_1 in E.
     unfold inv in *; cbn. rewrite E in HI. destruct (shut s); intuition (try congruence).
   - (* LServeInit *) unfold step, step_gen in HS. destruct (svc s) eqn:E; try done.
-    destruct n as [|n]; [done|]. simplify_eq.
+    destruct (wq s) eqn:Ewq0; [done|]. destruct n as [|n]; [done|]. simplify_eq.
     unfold inv in *; cbn. destruct (shut s); intuition (try congruence); try lia.
   - (* LServeStarted *) unfold step, step_gen in HS. destruct (svc s) eqn:E; try done.
     destruct (wq s) as [q|] eqn:Eq; [|done]. simplify_eq.
